@@ -214,6 +214,12 @@ def run_case(case) -> core.Outcome:
             B = convgen.build(c, case["b"])
         pu = p * A
         vp = _pv(p)
+        for pf in (pu.prefix, (pu**n).prefix if n else pu.prefix):
+            # a prefix whose own value leaves the double range (2**-1070 ...) even though the
+            # unit as a whole does not: float range, not a verdict
+            if pf.base and abs(float(pf.exponent)) * {2: 0.30103, 10: 1.0}.get(pf.base, 1.0) > 250:
+                out.inconclusive = "float-range"
+                return out
         mixed_a = _mixed(p, A.prefix)
         out.classes.append(f"{kind}:" + ("mixed" if mixed_a else "same-base"))
         if not convgen.range_ok(c.sizes, mag, pu):
